@@ -6,6 +6,7 @@ import (
 	"go/ast"
 	"go/types"
 
+	"github.com/quasilyte/go-ruleguard/ruleguard/quasigo"
 	"github.com/quasilyte/gogrep"
 	"github.com/quasilyte/gogrep/nodetag"
 )
@@ -76,7 +77,8 @@ func VerifNodeTags() (numBuckets, stmtList, exprList, declList int) {
 // VerifDirtyRunnerState puts into a RunnerState the kind of values an earlier run can leave behind
 // (a run whose callback panicked in the middle of a dead branch of some function, inside a custom filter,
 // after a Contains() sub-search): stale node path entries, dead-code flag, current function, filter variable
-// name, Do() strings, operand stack entries and a capture preset of the sub-matcher.
+// name, Do() strings, operand stack entries, the stack's variadic-length register and a capture preset of the
+// sub-matcher.
 func VerifDirtyRunnerState(st *RunnerState, n ast.Node, fn *ast.FuncDecl) {
 	st.nodePath.Push(n)
 	st.nodePath.Push(fn)
@@ -87,5 +89,6 @@ func VerifDirtyRunnerState(st *RunnerState, n ast.Node, fn *ast.FuncDecl) {
 	st.object.filterParams.suggestString = "stale suggestion"
 	st.evalEnv.Stack.Push(n)
 	st.evalEnv.Stack.PushInt(7)
+	quasigo.VerifSetVariadicLen(&st.evalEnv.Stack, 3)
 	st.gogrepSubState.CapturePreset = []gogrep.CapturedNode{{Name: "x", Node: n}, {Name: "i", Node: n}}
 }
